@@ -41,10 +41,10 @@ JOBS = [
     # C09: pure arithmetic lemmas used (as replaced contracts) by the compressor slices; all arguments, SMT
 ] + [
     dict(name='c09_lz4_lemma_' + nm, prop='C09', entry='h_lemma_' + nm, loop_contracts=False,
-         backend=['z3', 'cvc5', 'cadical'], timeout=1800, wip=(nm != 'ext'), functions=[], tier='thorough',
-         note='' if nm == 'ext' else 'UNDECIDED: pure 64-bit linear arithmetic (products 255*x, x/255); no back end closes the '
-              'combined statement in 900 s. Each calc step (distributivity: z3 1 s; sum of inequalities, ext-length fact, '
-              'SIZE_INV <=> 255*o <= 256*a: cadical 2..110 s) closes alone; the cases literal length < 15 close (cadical 17/56 s).',
+         backend=(['z3', 'cvc5', 'cadical'] if nm == 'ext' else 'cadical'), timeout=1800, wip=(nm != 'ext'),
+         functions=[], tier='thorough',
+         note='' if nm == 'ext' else 'explicit chain of asserted-then-assumed steps (quotient facts, pairwise distributivity of 255*, '
+              'sums of two inequalities, cancellation); REQ/ENS macros shared with the contract',
          **L9)
     for nm in ['space', 'ext', 'inv', 'last', 'post']
 ] + [
